@@ -45,6 +45,7 @@ func main() {
 		os.Stdout = devnull
 	}
 	checkIPTable()
+	loadScale = calibrate()
 
 	r := hx.NewRng(hx.SeedFromEnv()) // the only randomness source; all scripts are generated before anything runs
 	var gs []gScript
@@ -109,7 +110,9 @@ func main() {
 		}
 		if *doHosts {
 			hs = append(hs, hostScenarios...)
-			ip6 = ip6LoopbackWorks()
+			for try := 0; try < 3 && !ip6; try++ {
+				ip6 = ip6LoopbackWorks()
+			}
 			ip6Probed = true
 			if ip6 {
 				hs = append(hs, "malformed_request_ip6", "blacklisted_ip6_long")
@@ -125,7 +128,7 @@ func main() {
 	defer o.Close()
 	if ip6Probed {
 		// environment record: whether the IPv6 loopback scenarios (two hosts on ::1, one identity on 127.0.0.1 and ::1) could run
-		o.Put(map[string]interface{}{"k": "env", "ip6": ip6})
+		o.Put(map[string]interface{}{"k": "env", "ip6": ip6, "scale": loadScale})
 	}
 
 	for i := 0; i < *nConc; i++ {
